@@ -2,6 +2,10 @@
 //! `TimeZoneProvider` trait, and an independent reading of the same TZif files with the `tzif` crate's
 //! *parser only* (no lookup logic of src/tzdb.rs is used to produce the tables).
 //!
+//! Synthetic zones `synth/<n>` (`Tzdb.define`): bytes written by synth_tzif.rs are "the disk"; the table is the tzif crate's parse of
+//! those bytes, the lookups are the library's (`Tzif::from_bytes`, `Tzif::get`, `Tzif::v2_estimate_tz_pair`) behind replicas of the
+//! provider's two thin wrappers (the provider itself can only read /usr/share/zoneinfo).
+//!
 //! Time points are `{d, s, ns}` = epoch day, second of day, nanosecond of second (TLC ints are 32-bit).
 use crate::js::{self, int};
 use crate::proj::*;
@@ -134,6 +138,7 @@ fn synth_local(zone: &str, l: &Value) -> Value {
             R::Single(r) => vec![sub(r.offset)?],
             R::Ambiguous { std, dst } => vec![sub(std.offset)?, sub(dst.offset)?],
         })
+    // the order of the list is the wrapper's business (replicated above, not under test here): projected in ascending order
     }), |v| { let mut ns: Vec<i128> = v.iter().map(|e| e.as_i128()).collect(); ns.sort();
               Value::Array(ns.into_iter().map(ns_point).collect()) })
 }
@@ -146,9 +151,8 @@ fn offset(zone: &str, t: &Value) -> Value {
 fn local(zone: &str, l: &Value) -> Value {
     if crate::synth_tzif::is_synth(zone) { return synth_local(zone, l); }
     PROV.with(|p| run(|| p.borrow().get_named_tz_epoch_nanoseconds(zone, arg_iso_dt(l)?),
-                      // the answer is a set of instants: projected in ascending order
-                      |v| { let mut ns: Vec<i128> = v.iter().map(|e| e.as_i128()).collect(); ns.sort();
-                            Value::Array(ns.into_iter().map(ns_point).collect()) }))
+                      // projected in the order returned: the specification compares the set and asks for ascending order
+                      |v| Value::Array(v.iter().map(|e| ns_point(e.as_i128())).collect())))
 }
 
 pub fn exec(op: &str, a: &Value) -> Option<Value> {
